@@ -2275,7 +2275,11 @@ class unyt_array(np.ndarray):
         """
         np_ret = super().__reduce__()
         obj_state = np_ret[2]
-        unit_state = (((str(self.units), self.units.registry.lut),) + obj_state[:],)
+        # str() of the unit with expression 1 is "dimensionless", which would be
+        # read back as the *symbol* dimensionless (so that products print as
+        # dimensionless*km); the empty string is read back as expression 1
+        unit_str = "" if self.units.expr == 1 else str(self.units)
+        unit_state = (((unit_str, self.units.registry.lut),) + obj_state[:],)
         new_ret = np_ret[:2] + unit_state + np_ret[3:]
         return new_ret
 
